@@ -131,18 +131,36 @@ def run(pid):
 
     def post_sol(old, new, res):
         return z3.Implies(z3.Not(res), z3.Or(new.isnone('self.x_sol'), new.z('self.system.dae.m') == 0))
+    # the island data every later stage relies on (neutralised rows, slack classification) is recomputed from the current statuses
+    # at the start of every run when check_conn is 1 -- whatever bus-status request is pending; ghost field self.ghost_islands_fresh
+    conn_base = spec(name='System.connectivity')
+    init_base = spec(modifies=['self.converged', 'self.niter', 'loc:self.mis', 'self.x_sol', 'self.y_sol',
+                               'self.exec_time', 'self.system.dae.*', 'loc:self.system.dae.*', 'self.res', 'self.A',
+                               'self.models'],
+                     ensures=[init_post], name='PFlow.init')
+
+    def conn_h(ex, st, args, kw, node):
+        r = conn_base(ex, st, args, kw, node)
+        st.store('self.ghost_islands_fresh', z3.BoolVal(True))
+        return r
+
+    def init_h(ex, st, args, kw, node):
+        from pyvc.symex import to_z3
+        ex.oblige(st, 'pre@call:PFlow.init:with-check_conn=1-the-islands-were-recomputed-in-this-run(whatever-status-request-is-pending)',
+                  z3.Implies(to_z3(st.load('self.config.check_conn')) == 1, to_z3(st.load('self.ghost_islands_fresh'))), {})
+        return init_base(ex, st, args, kw, node)
+    sch = dict(schema())
+    sch.update({'self.ghost_islands_fresh': TBool(), 'self.system.conn.is_needed': TBool()})
     return Contract(
-        F, 'PFlow.run', pid=pid, params={'self': TObj()}, schema=schema(),
+        F, 'PFlow.run', pid=pid, params={'self': TObj()}, schema=sch,
         requires=[('tol-positive', lambda v: v.z('self.config.tol') > 0),
-                  ('max_iter-nonneg', lambda v: v.z('self.config.max_iter') >= 0)],
+                  ('max_iter-nonneg', lambda v: v.z('self.config.max_iter') >= 0),
+                  ('ghost:islands-not-yet-recomputed-in-this-run', lambda v: z3.Not(v.z('self.ghost_islands_fresh')))],
         calls={
             'np.argmax': argmax_xy,
-            'self.system.connectivity': spec(name='System.connectivity'),
+            'self.system.connectivity': conn_h,
             'self.summary': spec(name='PFlow.summary'),
-            'self.init': spec(modifies=['self.converged', 'self.niter', 'loc:self.mis', 'self.x_sol', 'self.y_sol',
-                                        'self.exec_time', 'self.system.dae.*', 'loc:self.system.dae.*', 'self.res', 'self.A',
-                                        'self.models'],
-                              ensures=[init_post], name='PFlow.init'),
+            'self.init': init_h,
             'self.nr_solve': spec(requires=[('not-yet-converged', lambda v, a, k: z3.Not(v.z('self.converged'))),
                                             ('mis-has-one-entry', lambda v, a, k: v.arr('self.mis').n == 1),
                                             ('tol-positive', lambda v, a, k: v.z('self.config.tol') > 0),
@@ -202,8 +220,8 @@ def replay_nr_step(bname, model, meta):
             'native_cmd': 'PFlow.nr_step(stub) with dae.g = [0, nan], dae.n = 0'}
 
 
-def replay_run(bname, model, meta):
-    return None
+def replay_run(bname=None, model=None, meta=None):
+    return replay_run_islands(bname, model, meta)
 
 
 def nr_step_point(pid):
@@ -318,3 +336,54 @@ def replay_nr_step_point(obligation=None, model=None, meta=None):
     return {'confirmed': False, 'tried': n}
 
 replay_nr_step_point.real_system = True
+
+
+def replay_run_islands(obligation=None, model=None, meta=None):
+    """native: PFlow.run on ieee14_full after a bus-status request that leaves nothing to switch (the same bus requested off twice before the
+    next routine), followed by ordinary line switching: after every run the reported islands / isolated buses are the components /
+    degree-zero nodes of the in-service branch graph"""
+    import contextlib
+    import io
+    import logging
+    import andes
+    from contracts.bounded_islands_real import components
+    logging.getLogger('andes').setLevel(logging.CRITICAL)
+    n = 0
+    with contextlib.redirect_stdout(io.StringIO()), contextlib.redirect_stderr(io.StringIO()):
+        ss = andes.load(andes.get_case('ieee14/ieee14_full.xlsx'), default_config=True, no_output=True)
+        ss.PFlow.run()
+    uid = {b: i for i, b in enumerate(ss.Bus.idx.v)}
+    history = ['PFlow.run()']
+
+    def compare():
+        edges = [(uid[f], uid[t]) for f, t, u in zip(ss.Line.bus1.v, ss.Line.bus2.v, ss.Line.u.v) if u == 1]
+        iso, isl = components(ss.Bus.n, edges)
+        got_iso = sorted(int(i) for i in ss.Bus.islanded_buses)
+        got_isl = sorted(sorted(int(i) for i in s) for s in ss.Bus.island_sets)
+        if got_iso != iso or (got_isl != isl and not (len(isl) == 1 and got_isl in ([], isl))):
+            return {'confirmed': True, 'inputs': {'case': 'ieee14_full', 'sequence': list(history)},
+                    'observed': 'after the last run: isolated buses %r, islands %r; the branch graph gives %r, %r' % (got_iso, got_isl, iso, isl),
+                    'native_cmd': 'contracts/fn_pflow.py replay_run_islands'}
+        return None
+    steps = [[('Bus', 14, 0), ('Bus', 14, 0), ('Line', 'Line_9', 0), ('Line', 'Line_10', 0), ('Line', 'Line_13', 0)],
+             [('Line', 'Line_9', 1), ('Line', 'Line_10', 1), ('Line', 'Line_13', 1), ('Line', 'Line_8', 0), ('Line', 'Line_14', 0)]]
+    for group in steps:
+        with contextlib.redirect_stdout(io.StringIO()), contextlib.redirect_stderr(io.StringIO()):
+            for mdl, idx, val in group:
+                if mdl == 'Bus':
+                    ss.Bus.set(src='u', attr='v', idx=idx, value=val)
+                    history.append("Bus.set('u', %r, 'v', %r)" % (idx, val))
+                else:
+                    ss.Line.alter(src='u', idx=idx, value=val)
+                    history.append("Line.alter('u', %r, %r)" % (idx, val))
+            ss.PFlow.run()
+            history.append('PFlow.run()')
+        n += 1
+        bad = compare()
+        if bad:
+            return bad
+    return {'confirmed': False, 'tried': n}
+
+replay_run_islands.real_system = True
+
+replay_run.real_system = True
